@@ -49,6 +49,11 @@ def shards(tier, seed):
                 out.append((tier, seed, name, si, kinds, version))
     out.append((tier, seed, 'ATTR', 0, None, '1.0'))
     out.append((tier, seed, 'ATTR', 0, None, '1.1'))
+    for fam in FACETS:
+        n = len(facet_sets(fam, 2 if tier == 'thorough' else 1))
+        for lo in range(0, n, 8):
+            for version in ('1.0', '1.1'):
+                out.append((tier, seed, 'FACET:' + fam, lo, None, version))
     return out
 
 
@@ -110,6 +115,8 @@ def run_shard(shard, acc):
     tier, seed, name, si, kinds, version = shard
     if name == 'ATTR':
         return run_attr_shard(tier, version, acc)
+    if name.startswith('FACET:'):
+        return run_facet_shard(tier, version, name[6:], si, acc)
     spec = [s for s in spaces(tier) if s[0] == name][0]
     _, n, occs, maxdev, wildv, sliced = spec
     shape = list(M.shapes(n))[si]
@@ -261,8 +268,160 @@ def run_attr_shard(tier, version, acc):
                 acc.sample({'version': version, 'base_attr': b, 'derived_attr': r, 'outcome': 'accepted, narrowing'})
 
 
+# --- facet pairs ----------------------------------------------------------------------------------
+FACETS = {
+    'integer': {
+        'base': 'xs:integer',
+        'facets': [('minInclusive', 0), ('minInclusive', 5), ('maxInclusive', 10), ('maxInclusive', 20), ('minExclusive', 0),
+                   ('minExclusive', 5), ('maxExclusive', 10), ('maxExclusive', 20), ('totalDigits', 1), ('totalDigits', 2),
+                   ('enumeration', (1, 5)), ('enumeration', (5, 15)), ('pattern', '[0-9]'), ('pattern', '[0-9]+')],
+        'values': ['-1', '0', '1', '5', '6', '9', '10', '11', '15', '19', '20', '21', '100'],
+    },
+    'string': {
+        'base': 'xs:string',
+        'facets': [('length', 1), ('length', 2), ('minLength', 1), ('minLength', 2), ('maxLength', 1), ('maxLength', 2), ('maxLength', 3),
+                   ('enumeration', ('a', 'bb')), ('enumeration', ('bb', 'ccc')), ('pattern', 'a*'), ('pattern', '[a-c]+')],
+        'values': ['', 'a', 'b', 'bb', 'aa', 'ccc', 'aaa', 'abcd'],
+    },
+    'decimal': {
+        'base': 'xs:decimal',
+        'facets': [('fractionDigits', 0), ('fractionDigits', 1), ('fractionDigits', 2), ('totalDigits', 2), ('totalDigits', 3),
+                   ('minInclusive', 1), ('maxInclusive', 10), ('maxExclusive', 10)],
+        'values': ['0', '1', '1.5', '1.25', '9.99', '10', '10.0', '10.5', '99', '100', '0.125'],
+    },
+}
+
+
+def facet_sets(fam, top):
+    from itertools import combinations
+    fs = FACETS[fam]['facets']
+    out = [(f,) for f in fs]
+    if top >= 2:
+        out += [c for c in combinations(fs, 2) if c[0][0] != c[1][0] or c[0][0] == 'pattern']
+    return out
+
+
+def facet_xml(fset):
+    out = ''
+    for name, val in fset:
+        if name == 'enumeration':
+            out += ''.join('<xs:enumeration value="%s"/>' % v for v in val)
+        else:
+            out += '<xs:%s value="%s"/>' % (name, val)
+    return out
+
+
+def ref_facets_ok(fam, fset, text):
+    """Tiny reference: does the (lexically valid) text satisfy every facet of fset?"""
+    import re as _re
+    from decimal import Decimal
+    for name, val in fset:
+        if fam == 'string':
+            ln = len(text)
+            ok = {'length': ln == val if name == 'length' else True, 'minLength': ln >= val if name == 'minLength' else True,
+                  'maxLength': ln <= val if name == 'maxLength' else True}.get(name, True)
+            if name == 'enumeration':
+                ok = text in val
+            if name == 'pattern':
+                ok = _re.fullmatch(val, text) is not None
+        else:
+            d = Decimal(text)
+            if name == 'minInclusive':
+                ok = d >= val
+            elif name == 'maxInclusive':
+                ok = d <= val
+            elif name == 'minExclusive':
+                ok = d > val
+            elif name == 'maxExclusive':
+                ok = d < val
+            elif name == 'totalDigits':
+                digits = d.normalize().as_tuple()
+                nd = len(digits.digits) + max(digits.exponent, 0) if d != 0 else 1
+                ok = nd <= val
+            elif name == 'fractionDigits':
+                ok = max(-d.normalize().as_tuple().exponent, 0) <= val
+            elif name == 'enumeration':
+                ok = any(d == v for v in val)
+            elif name == 'pattern':
+                ok = _re.fullmatch(val, text) is not None
+            else:
+                ok = True
+        if not ok:
+            return False
+    return True
+
+
+def fshow(fset):
+    return ','.join('%s=%s' % (n, '/'.join(map(str, v)) if isinstance(v, tuple) else v) for n, v in fset)
+
+
+def facet_pair_decl(i, fam, f1, f2):
+    base = FACETS[fam]['base']
+    return ('<xs:simpleType name="B%d"><xs:restriction base="%s">%s</xs:restriction></xs:simpleType>\n'
+            '<xs:simpleType name="R%d"><xs:restriction base="t:B%d">%s</xs:restriction></xs:simpleType>\n'
+            '<xs:element name="b%d" type="t:B%d"/>\n<xs:element name="r%d" type="t:R%d"/>\n'
+            % (i, base, facet_xml(f1), i, i, facet_xml(f2), i, i, i, i))
+
+
+def facet_witnesses(schema, i, fam, f1, f2):
+    bad = []
+    for v in FACETS[fam]['values']:
+        vr = schema.is_valid('<t:r%d xmlns:t="urn:t">%s</t:r%d>' % (i, v, i))
+        vb = schema.is_valid('<t:b%d xmlns:t="urn:t">%s</t:b%d>' % (i, v, i))
+        if vr and not vb and not ref_facets_ok(fam, f1, v):
+            bad.append(v or "''")
+    return bad
+
+
+def run_facet_shard(tier, version, fam, lo, acc):
+    top = 2 if tier == 'thorough' else 1
+    sets1 = facet_sets(fam, top)
+    sets2 = facet_sets(fam, 2)
+    for f1 in sets1[lo:lo + 8]:
+        pairs = [(f1, f2) for f2 in sets2]
+        for c in range(0, len(pairs), PACK):
+            chunk = pairs[c:c + PACK]
+            text = M.SCHEMA_HEAD + ''.join(facet_pair_decl(i, fam, a, b) for i, (a, b) in enumerate(chunk)) + M.SCHEMA_TAIL
+            with acc.guard(300):
+                schema = VERSIONS[version](text, validation='lax')
+            for i, (a, b) in enumerate(chunk):
+                acc.ev()
+                tb, tr = schema.types['B%d' % i], schema.types['R%d' % i]
+                if any(x.errors for x in tb.iter_components()):
+                    acc.out('facet/base-refused')
+                    continue
+                if any(x.errors for x in tr.iter_components()):
+                    acc.out('facet/refused')
+                    continue
+                acc.nt('facet %s %s %s %s' % (version, fam, fshow(a), fshow(b)))
+                bad = facet_witnesses(schema, i, fam, a, b)
+                acc.st(states=len(FACETS[fam]['values']), transitions=2 * len(FACETS[fam]['values']), traces=2 * len(FACETS[fam]['values']))
+                acc.out('facet/accepted/' + ('widening' if bad else 'narrowing'))
+                if bad:
+                    acc.disc('C14 %s facet %s base={%s} derived={%s} witness=%s' % (version, fam, fshow(a), fshow(b), ';'.join(bad[:4])),
+                             'restriction of %s{%s} with facets {%s} accepted, but values %s are valid for the derived type and invalid for the base type'
+                             % (fam, fshow(a), fshow(b), ', '.join(bad)),
+                             {'version': version, 'facet': [fam, [list(x) for x in a], [list(x) for x in b]]})
+                elif i == 1 and len(acc.samples) < 6:
+                    acc.sample({'version': version, 'family': fam, 'base_facets': fshow(a), 'derived_facets': fshow(b), 'outcome': 'accepted, narrowing'})
+
+
 def replay(case):
     version = case['version']
+    if 'facet' in case:
+        fam, a, b = case['facet']
+        a = tuple((n, tuple(v) if isinstance(v, list) else v) for n, v in a)
+        b = tuple((n, tuple(v) if isinstance(v, list) else v) for n, v in b)
+        text = M.SCHEMA_HEAD + facet_pair_decl(0, fam, a, b) + M.SCHEMA_TAIL
+        schema = VERSIONS[version](text, validation='lax')
+        tb, tr = schema.types['B0'], schema.types['R0']
+        if any(x.errors for x in tb.iter_components()) or any(x.errors for x in tr.iter_components()):
+            return []
+        bad = facet_witnesses(schema, 0, fam, a, b)
+        if bad:
+            return [('C14 %s facet %s base={%s} derived={%s} witness=%s' % (version, fam, fshow(a), fshow(b), ';'.join(bad[:4])),
+                     'values %s' % bad)]
+        return []
     if 'attr' in case:
         from mc.core.runner import Acc
         b, r = [tuple(x) for x in case['attr']]
@@ -297,5 +456,6 @@ def bounds(tier, seed):
     return {'spaces': [{'name': s[0], 'nodes': s[1], 'occurrences': len(s[2]), 'max_nondefault': s[3],
                         'wildcard_leaf_variants': s[4], 'seed_slice_1_of_%d' % SLICES: s[5]} for s in spaces(tier)],
             'edits': 'every single edit of mc/gen/edits.py at every position',
+            'facets': 'integer / string / decimal: every base facet set of size 1 (thorough: <= 2) x every derived facet set of size <= 2 x a value catalogue',
             'attributes': '7 base uses x 2 types x 4 wildcards x 8 derived uses x 3 types x 4 wildcards x 18 attribute sets',
             'versions': ['1.0', '1.1']}
